@@ -97,6 +97,14 @@ pub struct Deployed {
 }
 
 pub fn deploy(cfg: &Cfg) -> Result<Deployed, String> {
+    deploy_staged(cfg, None)
+}
+
+/// `stage`: None = fully wired (every run starts here). Some(0) = contracts instantiated, hub
+/// not wired at all; Some(1) = only the two token addresses registered; Some(2) = tokens and
+/// dispatcher registered (registry, airdrop registry still unset). The partially wired states
+/// are the deployment window every real deployment passes through (used by the C10 matrix).
+pub fn deploy_staged(cfg: &Cfg, stage: Option<u8>) -> Result<Deployed, String> {
     let mut w = World::new(cfg.genesis_time, cfg.unbonding_period);
     w.ext.oracle_rate_atomics = cfg.oracle_rate_atomics.u128();
     w.ext.swap_slip_ppm = cfg.swap_slip_ppm;
@@ -210,24 +218,29 @@ pub fn deploy(cfg: &Cfg) -> Result<Deployed, String> {
     )
     .map_err(|e| format!("foreign cw20 instantiate: {}", e))?;
 
-    let wire = Tx::new(
-        OWNER,
-        HUB,
-        &basset::hub::ExecuteMsg::UpdateConfig {
-            rewards_dispatcher_contract: Some(DISPATCHER.into()),
-            validators_registry_contract: Some(REGISTRY.into()),
-            bsei_token_contract: Some(BSEI.into()),
-            stsei_token_contract: Some(STSEI.into()),
-            airdrop_registry_contract: Some(AIRDROP.into()),
-            rewards_contract: Some(REWARD.into()),
-            update_reward_index_addr: None,
-        },
-        vec![],
-    );
-    let (nw, out) = wasm::run_tx(&w, &wire, None);
-    match nw {
-        Some(nw) => w = nw,
-        None => return Err(format!("hub wiring failed: {:?}", out.err)),
+    let some = |on: bool, a: &str| if on { Some(a.to_string()) } else { None };
+    let full = stage.is_none();
+    let st = stage.unwrap_or(9);
+    if st > 0 {
+        let wire = Tx::new(
+            OWNER,
+            HUB,
+            &basset::hub::ExecuteMsg::UpdateConfig {
+                rewards_dispatcher_contract: some(full || st >= 2, DISPATCHER),
+                validators_registry_contract: some(full, REGISTRY),
+                bsei_token_contract: some(true, BSEI),
+                stsei_token_contract: some(true, STSEI),
+                airdrop_registry_contract: some(full, AIRDROP),
+                rewards_contract: some(full || st >= 2, REWARD),
+                update_reward_index_addr: None,
+            },
+            vec![],
+        );
+        let (nw, out) = wasm::run_tx(&w, &wire, None);
+        match nw {
+            Some(nw) => w = nw,
+            None => return Err(format!("hub wiring failed: {:?}", out.err)),
+        }
     }
 
     if !cfg.legacy_wait.is_empty() {
